@@ -152,8 +152,15 @@ def enum_units(tier, seed):
     n = len(ALPHABET)
     units = []
     maxlen = 3 if tier == "quick" else 4
-    for first in range(n):
-        units.append({"t": "tokens", "first": first, "maxlen": maxlen})
+    if maxlen <= 3:
+        for first in range(n):
+            units.append({"t": "tokens", "prefix": [first], "maxlen": maxlen})
+    else:
+        # units small enough to finish well inside the per-case wall-clock backstop (which only marks "inconclusive")
+        units.append({"t": "tokens", "prefix": [], "maxlen": 1})
+        for first in range(n):
+            for second in range(n):
+                units.append({"t": "tokens", "prefix": [first, second], "maxlen": maxlen})
     units.append({"t": "samples", "tier": tier})
     for depth in ((8, 16, 24, 32) if tier == "quick" else (8, 16, 24, 32, 48, 64)):
         units.append({"t": "structured", "depth": depth})
@@ -250,12 +257,13 @@ def run_case(case) -> Outcome:
     t = case["t"]
     out = Outcome(evals=0, nontrivial=0, labels=[])
     if t == "tokens":
-        first = ALPHABET[case["first"]]
+        prefix = tuple(ALPHABET[i] for i in case["prefix"])
+        first = " ".join(prefix) if prefix else "<any>"
         nt = 0
         n = 0
-        for L in range(1, case["maxlen"] + 1):
-            for rest in itertools.product(ALPHABET, repeat=L - 1):
-                toks = (first,) + rest
+        for L in range(max(1, len(prefix)), case["maxlen"] + 1):
+            for rest in itertools.product(ALPHABET, repeat=L - len(prefix)):
+                toks = prefix + rest
                 for sep in ("", " "):
                     if sep == " " and L == 1:
                         continue
@@ -266,7 +274,7 @@ def run_case(case) -> Outcome:
                         nt += 1
         out.nontrivial = nt
         out.labels.append(f"tokens:len<={case['maxlen']}")
-        out.sample = {"first_token": first, "sequences": n, "example": " ".join((first, "/*", "'"))}
+        out.sample = {"prefix": first, "sequences": n, "example": " ".join((first, "/*", "'"))}
         return out
     if t == "samples":
         sdir = os.path.join(REPO_ROOT, "tests", "samples")
